@@ -694,7 +694,42 @@ func runC13(p *Prog, r *Report) {
 	okRB := rbA != nil && rbL != nil && ToRat(BuildExpr(p, rbA.Val, nil)).Equal(rfAtom(A).Add(rfAtom(L), 1)) && uncond(b.rollback, rbA) && uncond(b.rollback, rbL)
 	if okRB {
 		k, ok := constInt(rbL.Val)
-		okRB = ok && k == 0 && ReachableAvoiding(b.rollback, rbA, rbL, nil, nil)
+		// what is added back is the amount read BEFORE it is zeroed: the zeroing store does not reach the load
+		// of lastConsumed that feeds the addition (either statement order is fine)
+		okRB = ok && k == 0
+		var loads []*ssa.UnOp
+		var walk func(v ssa.Value, d int)
+		walk = func(v ssa.Value, d int) {
+			if d > 6 || v == nil {
+				return
+			}
+			switch x := v.(type) {
+			case *ssa.UnOp:
+				if x.Op == token.MUL && isFieldAddr(x.X, b.typ, b.lastCons) {
+					loads = append(loads, x)
+				}
+				walk(x.X, d+1)
+			case *ssa.BinOp:
+				walk(x.X, d+1)
+				walk(x.Y, d+1)
+			case *ssa.Convert:
+				walk(x.X, d+1)
+			case *ssa.Phi:
+				for _, e := range x.Edges {
+					walk(e, d+1)
+				}
+			}
+		}
+		walk(rbA.Val, 0)
+		if len(loads) == 0 {
+			okRB = false
+		}
+		reach := Reach(b.rollback, rbL, nil, nil)
+		for _, ld := range loads {
+			if reach[ld] {
+				okRB = false
+			}
+		}
 	}
 	r.Check(okRB, "C13.R1", "ratelimit.(*tokenBucket).rollback: adds lastConsumed back and zeroes it", p.FuncPos(b.rollback), "availableTokens += lastConsumed; lastConsumed = 0", "rollback does not restore exactly lastConsumed and then zero it")
 
